@@ -41,6 +41,8 @@ type Client struct {
 
 	// Single packet read timeout.
 	readTimeout time.Duration
+	// body arms the read deadline while the body of a packet is received.
+	body *bodyReader
 
 	otel   bool
 	tracer trace.Tracer
@@ -231,9 +233,34 @@ func (c *Client) profile() (proto.Profile, error) {
 	return p, nil
 }
 
+// bodyReader reads from the connection. While the body of a packet is being
+// received it arms the read deadline again before every read, so that a peer
+// which goes silent in the middle of a packet does not block the client forever.
+type bodyReader struct {
+	conn    net.Conn
+	timeout time.Duration // wait for more bytes of the body; not armed if zero
+	limit   time.Time     // context deadline, if any
+}
+
+func (r *bodyReader) Read(p []byte) (int, error) {
+	if r.timeout > 0 {
+		deadline := time.Now().Add(r.timeout)
+		if !r.limit.IsZero() && r.limit.Before(deadline) {
+			deadline = r.limit
+		}
+		if err := r.conn.SetReadDeadline(deadline); err != nil {
+			return 0, errors.Wrap(err, "set read deadline")
+		}
+	}
+	return r.conn.Read(p)
+}
+
 // packet reads server code.
 func (c *Client) packet(ctx context.Context) (proto.ServerCode, error) {
 	timeout := c.readTimeout
+	if c.body != nil {
+		c.body.timeout = 0
+	}
 	var deadline time.Time
 	if timeout > 0 {
 		deadline = time.Now().Add(timeout)
@@ -270,6 +297,11 @@ func (c *Client) packet(ctx context.Context) (proto.ServerCode, error) {
 	}
 	if !code.IsAServerCode() {
 		return 0, errors.Errorf("bad server packet type %d", n)
+	}
+	if timeout > 0 && c.body != nil {
+		// The rest of the packet is read by the caller.
+		c.body.timeout = timeout
+		c.body.limit, _ = ctx.Deadline()
 	}
 
 	return code, nil
@@ -524,10 +556,12 @@ func Connect(ctx context.Context, conn net.Conn, opt Options) (*Client, error) {
 		compression = proto.CompressionDisabled
 	}
 
+	body := &bodyReader{conn: conn}
 	c := &Client{
 		conn:     conn,
+		body:     body,
 		writer:   proto.NewWriter(conn, new(proto.Buffer)),
-		reader:   proto.NewReader(conn),
+		reader:   proto.NewReader(body),
 		settings: opt.Settings,
 		lg:       opt.Logger,
 		otel:     opt.OpenTelemetryInstrumentation,
